@@ -458,6 +458,7 @@ class Project(MessageHandler):
 
     def scheduleScenario(self, scIdx: int) -> bool:
         all_tasks: list[Any] = list(self.tasks)
+        inverted: list[Any] = []
 
         # First, handle milestones - they just need end=start (or start=end)
         # A milestone is either:
@@ -490,7 +491,15 @@ class Project(MessageHandler):
                     task[("start", scIdx)] = end
                     task[("scheduled", scIdx)] = True
                 elif start and end:
-                    task[("scheduled", scIdx)] = True
+                    if end < start:
+                        # Dates that contradict each other are not a schedule
+                        self.warning(
+                            "task_dates_inverted",
+                            f"Task {task.fullId}: the end date {end} is before the start date {start}",
+                        )
+                        inverted.append(task)
+                    else:
+                        task[("scheduled", scIdx)] = True
                 # else: milestone with no dates - let it be scheduled by the main loop
 
         # Propagate ALAP mode through dependency chains
@@ -499,7 +508,7 @@ class Project(MessageHandler):
         self._propagateALAPMode(scIdx)
 
         # Only care about leaf tasks that aren't scheduled already
-        tasks: list[Any] = [t for t in all_tasks if t.leaf() and not t.get("scheduled", scIdx)]
+        tasks: list[Any] = [t for t in all_tasks if t.leaf() and not t.get("scheduled", scIdx) and t not in inverted]
 
         # Sorting
         # Primary: priority (desc), Secondary: pathcriticalness (desc), Tertiary: seqno (asc)
@@ -542,8 +551,8 @@ class Project(MessageHandler):
                 # likely deadlock or all failed
                 break
 
-        if failedTasks:
-            self.warning("unscheduled_tasks", f"{len(failedTasks)} tasks could not be scheduled")
+        if failedTasks or inverted:
+            self.warning("unscheduled_tasks", f"{len(failedTasks) + len(inverted)} tasks could not be scheduled")
             return False
 
         return True
